@@ -124,3 +124,70 @@ Proof. repeat split; vm_compute; reflexivity. Qed.
 
 Lemma ex_all_sympy_class : exists ci, lookup T cKallen = Some ci /\ all_sympy ci = true.
 Proof. eexists. split; vm_compute; reflexivity. Qed.
+
+(* ---- keyword construction: the stored arguments follow the DECLARATION order of the fields, whatever
+   the order in which the caller wrote the keywords (_extract_field_values iterates the fields) ---- *)
+From Coq Require Import Permutation.
+
+Fixpoint kw_get (kw : list (string * val)) (n : string) : option val :=
+  match kw with
+  | [] => None
+  | (k, v) :: kw' => if String.eqb k n then Some v else kw_get kw' n
+  end.
+
+(* positional prefix [pos], then for every remaining field its keyword, else its default *)
+Fixpoint extract (fs : list field) (pos : list val) (kw : list (string * val)) : option (list val) :=
+  match fs, pos with
+  | [], [] => Some []
+  | [], _ :: _ => None
+  | f :: fs', v :: pos' => option_map (cons v) (extract fs' pos' kw)
+  | f :: fs', [] =>
+      match kw_get kw (fname f), fdef f with
+      | Some v, _ => option_map (cons v) (extract fs' [] kw)
+      | None, DE e => option_map (cons (VE e)) (extract fs' [] kw)
+      | None, DA a => option_map (cons (VA a)) (extract fs' [] kw)
+      | None, DNone => None
+      end
+  end.
+
+Definition new_kw (c : string) (pos : list val) (kw : list (string * val)) : expr :=
+  match lookup T c with
+  | None => err "class"
+  | Some ci => match extract (cfields ci) pos kw with
+               | Some vs => new T c vs
+               | None => err "arguments"
+               end
+  end.
+
+Lemma kw_get_perm kw kw' n :
+  NoDup (map fst kw) -> Permutation kw kw' -> kw_get kw n = kw_get kw' n.
+Proof.
+  intros ND P. induction P as [| [k v] l l' P IH | [k1 v1] [k2 v2] l | l l' l'' P1 IH1 P2 IH2].
+  - reflexivity.
+  - cbn in *. inversion ND; subst. rewrite IH; auto.
+  - cbn in *. inversion ND as [|? ? Hin ND']; subst.
+    destruct (String.eqb k1 n) eqn:E1, (String.eqb k2 n) eqn:E2; auto.
+    apply String.eqb_eq in E1, E2. subst. exfalso. apply Hin. left. reflexivity.
+  - rewrite IH1 by exact ND. apply IH2.
+    eapply Permutation_NoDup; [apply Permutation_map; exact P1 | exact ND].
+Qed.
+
+Lemma extract_perm fs : forall pos kw kw',
+  NoDup (map fst kw) -> Permutation kw kw' -> extract fs pos kw = extract fs pos kw'.
+Proof.
+  induction fs as [|f fs IH]; intros [|v pos] kw kw' ND P; cbn; auto.
+  - rewrite (kw_get_perm kw kw' (fname f) ND P), (IH [] kw kw' ND P). reflexivity.
+  - rewrite (IH pos kw kw' ND P). reflexivity.
+Qed.
+
+Lemma l_kw_order c pos kw kw' :
+  NoDup (map fst kw) -> Permutation kw kw' -> new_kw c pos kw = new_kw c pos kw'.
+Proof.
+  intros ND P. unfold new_kw. destruct (lookup T c); auto. rewrite (extract_perm _ pos kw kw' ND P). reflexivity.
+Qed.
+
+(* BoostZMatrix(n_events=n, beta=b) = BoostZMatrix(beta=b, n_events=n) = BoostZMatrix(b, n); args = (b, n) *)
+Lemma ex_kw_order :
+  new_kw cBZ [] [("n_events", VE (sy "n")); ("beta", VE (sy "b"))] = Unev cBZ [sy "b"; sy "n"] [] /\
+  new_kw cBZ [VE (sy "b")] [("n_events", VE (sy "n"))] = Unev cBZ [sy "b"; sy "n"] [].
+Proof. split; vm_compute; reflexivity. Qed.
